@@ -1993,6 +1993,52 @@ theorem messageKeyGeneration_error_lookup (P : Prim B) (t : SecretTree B) (i : N
 
 end Repair
 
+/-! ### §6b the answer to a request is the answer of the ratchet of its (leaf, key type) -/
+
+/-- what ratchet `ρ` answers to request `q` (the leaf and key type of `q` are not looked at) -/
+def Ratchet.answer (P : Prim B) (ρ : Ratchet B) : Req → Except Err (MsgKey B)
+  | .next _ _ => .ok (ρ.next P).1
+  | .get _ _ g => (ρ.get P g).1
+
+/-- On a shape-invariant tree, a request at a stored leaf is answered by the ratchet the tree holds
+for (leaf, key type) — a stored, not yet started leaf secret counting as its two fresh ratchets —
+and by nothing else in the tree.  (The early refusal of the repaired `message_key_generation` agrees
+with what the fresh ratchet would have said.) -/
+theorem step_answer (P : Prim B) (k : Nat) (t : SecretTree B) (q : Req)
+    (h : FInv k t) (hq : IsLeafOf k q.idx) (ρ : Ratchet B)
+    (hρ : ratchetAt P t q.idx q.kt = some ρ) :
+    (t.step P q).1 = ρ.answer P q := by
+  obtain ⟨ah, t', htake, _, _, _, _, hah⟩ := takeLeafRatchet_front P k t q.idx h hq
+  simp only [ratchetAt] at hρ
+  cases hg : mapGet t.known q.idx with
+  | none => rw [hg] at hρ; cases hρ
+  | some n =>
+    rw [hg] at hρ
+    simp only [Option.map_some, Option.some.injEq] at hρ
+    have hsel : sel q.kt ah = ρ := by rw [hah n hg]; exact hρ
+    rcases step_eq_of_take P t t' q ah htake with ⟨i, kt, g, hq', hc, hstep⟩ | ⟨res, r', hstep, hres⟩
+    · subst hq'
+      rw [hstep]
+      simp only [Req.idx, Req.kt] at hg hρ
+      have hn : ∃ s, n = .secret s := by
+        cases n with
+        | secret s => exact ⟨s, rfl⟩
+        | ratchet a b =>
+          have := (hasRatchet_eq_true_iff t i).2 ⟨a, b, hg⟩
+          rw [hc.2] at this; cases this
+      obtain ⟨s, rfl⟩ := hn
+      have hnew : ρ = Ratchet.new P s kt := by rw [← hρ]; cases kt <;> rfl
+      subst hnew
+      have h1 : 1024 < g := hc.1
+      simp only [Ratchet.answer]
+      rw [get_future P _ g (by simp [Ratchet.new])
+        (by simp [Ratchet.new, maxRatchetBackHistory])
+        (by simp only [Ratchet.new, maxRatchetBackHistory]; omega)]
+    · rw [hstep]
+      rcases hres with ⟨i, kt, hq', hr, _⟩ | ⟨i, kt, g, hq', hr, _⟩
+      · subst hq'; rw [hr, hsel]; rfl
+      · subst hq'; rw [hr, hsel]; rfl
+
 /-! ### §7 injectivity of key derivation under the symbolic (collision-free) assumptions -/
 
 /-- The symbolic assumptions, exactly as far as they are used: `KDF.Expand` applied to a
